@@ -34,6 +34,8 @@ def build(desc):
                                                            delete the decoy, add x   (stale caches, index re-use)
       {"phase_order": "comp_first" | "redefine"}           component phases before the system phases / system
                                                            phases defined twice with different names
+      {"retouch": {"x": name}}                             a component without phase configuration gets a decoy one and is
+                                                           then replaced by itself (same name): change_comp() resets it
       {"bridge": {"child": name, "slot": k}}               the child's k-th parent link is first built through an
                                                            ideal pass-through stage that is deleted at the end with
                                                            del_childs=False (re-linking, PMux input bookkeeping)
@@ -43,6 +45,7 @@ def build(desc):
     det = plan.get("detour")
     order = plan.get("phase_order", "normal")
     bridge = plan.get("bridge")
+    retouch = plan.get("retouch")
     sys = None
 
     def add(c):
@@ -93,6 +96,17 @@ def build(desc):
             comp_phases([x])
         if bridge:
             sys.del_comp("__bridge", del_childs=False)
+        if retouch:
+            # a component WITHOUT phase configuration is given a decoy configuration and then replaced by an identical
+            # component of the same name: change_comp() resets the phase configuration, so the decoy must leave no trace
+            c = [c for c in comps if c["name"] == retouch["x"]][0]
+            sys.set_comp_phases(c["name"], {"__never": 1.0} if c["kind"] in ("pload", "iload", "rload") else ["__never"])
+            kw = {}
+            if c.get("group", ""):
+                kw["group"] = c["group"]
+            if c.get("rail", ""):
+                kw["rail"] = c["rail"]
+            sys.change_comp(c["name"], comp=mk_comp(c), **kw)
     return sys
 
 
